@@ -195,8 +195,21 @@ def run(ctx):
                         {"path": "c.zip/src.zip", "kind": "f", "size": 2, "mode": 0o644, "mtime": 1700000002},
                         {"path": "c.zip/a.txt", "kind": "f", "size": 2, "mode": 0o644, "mtime": 1700000002},
                         {"path": "top.txt", "kind": "f", "size": 2, "mode": 0o644, "mtime": 1700000002}]
+            corpus2 = t == 1
+            if corpus2:
+                # witness of D71 (fixed): a root below a directory that an end-anchored hg regexp ignores
+                tool = "hg"
+                ents = [{"path": "x", "kind": "d", "mode": 0o755, "mtime": 1700000000},
+                        {"path": "x/e.c", "kind": "d", "mode": 0o755, "mtime": 1700000000},
+                        {"path": "x/e.c/b.o", "kind": "f", "size": 2, "mode": 0o644, "mtime": 1700000002},
+                        {"path": "x/e.c/sub", "kind": "d", "mode": 0o755, "mtime": 1700000000},
+                        {"path": "x/e.c/sub/z", "kind": "f", "size": 2, "mode": 0o644, "mtime": 1700000002},
+                        {"path": "y", "kind": "d", "mode": 0o755, "mtime": 1700000000},
+                        {"path": "y/k.c", "kind": "f", "size": 2, "mode": 0o644, "mtime": 1700000002},
+                        {"path": "y/m", "kind": "f", "size": 2, "mode": 0o644, "mtime": 1700000002}]
             fstree.materialise(repo, ents)
-            lines = gen_patterns(r, ents, tool) if not corpus else [("glob", "*.zip"), ("glob", "!src.zip")]
+            lines = gen_patterns(r, ents, tool) if not (corpus or corpus2) else \
+                ([("glob", "*.zip"), ("glob", "!src.zip")] if corpus else [("syntax", "syntax: regexp"), ("regexp", "\\.c$")])
             text = "".join(tx + "\n" for _, tx in lines)
             if tool == "git":
                 subprocess.run(["git", "init", "-q", repo], env=genv, stdout=subprocess.DEVNULL, stderr=subprocess.DEVNULL)
@@ -228,6 +241,8 @@ def run(ctx):
             chosen = r.sample(roots, min(len(roots), 2 if quick else 4))
             if corpus:
                 chosen = [(".", os.path.join(repo, "c.zip"), "c.zip"), (".", repo, "")]
+            if corpus2:
+                chosen = [(".", os.path.join(repo, "x", "e.c"), "x/e.c"), (".", os.path.join(repo, "x", "e.c", "sub"), "x/e.c/sub"), (".", repo, "")]
             for spelled, cwd, subrel in chosen:
                 trav = r.choice(["", " dfs", " bfs"])
                 mode = r.below(3)
